@@ -659,6 +659,22 @@ func engineCorpus(t *testing.T, out *sink) int {
 			checks: []string{"Doc:z#p@bob"}, gdepth: 6,
 		},
 	}
+	// depth ladders: what one hop of each kind costs.  A chain of traversals / subject sets / computed subject sets
+	// with the grant at the far end, asked at every request depth around the boundary; the model predicts each answer.
+	ttu := func(r, cr string) ast.Child { return &ast.TupleToSubjectSet{Relation: r, ComputedSubjectSetRelation: cr} }
+	for depth := 1; depth <= 7; depth++ {
+		scs = append(scs, sc{
+			nss: doc(ast.Relation{Name: "own"}, ast.Relation{Name: "par"}, ast.Relation{Name: "grp"},
+				ast.Relation{Name: "view", SubjectSetRewrite: or(css("own"), ttu("par", "view"))},
+				ast.Relation{Name: "edit", SubjectSetRewrite: or(css("view"))},
+				ast.Relation{Name: "both", SubjectSetRewrite: and(css("edit"), ttu("par", "view"))}),
+			tuples: []string{"Doc:x#par@Doc:y#", "Doc:y#par@Doc:z#", "Doc:z#par@Doc:g#", "Doc:g#own@alice",
+				"Doc:x#grp@Doc:y#grp", "Doc:y#grp@Doc:z#grp", "Doc:z#grp@Doc:g#grp", "Doc:g#grp@alice"},
+			checks: []string{"Doc:x#view@alice", "Doc:y#view@alice", "Doc:z#view@alice", "Doc:g#view@alice", "Doc:x#edit@alice", "Doc:y#edit@alice",
+				"Doc:x#both@alice", "Doc:y#both@alice", "Doc:x#grp@alice", "Doc:y#grp@alice", "Doc:z#grp@alice", "Doc:x#view@bob"},
+			depth: depth, gdepth: 100,
+		})
+	}
 	// D16: a-b:o#c and a:o#b-c had the same visited id; repeated so that both storage orders occur
 	for i := 0; i < 6; i++ {
 		scs = append(scs, sc{
